@@ -344,6 +344,9 @@ Section CseDyn.
     - intros c inv ss _. apply PC_other. reflexivity.
     - intros e. apply PC_other. reflexivity.
     - intros lvs ss bc _. apply PC_other. reflexivity.
+    - intros x tn es. apply PC_other. reflexivity.
+    - intros x. apply PC_other. reflexivity.
+    - intros x e. apply PC_other. reflexivity.
     - exact QC_nil.
     - exact QC_cons.
   Qed.
@@ -404,7 +407,7 @@ Definition wit_div : func :=
     [SIf (EVar 1%N) [SCall 9%N [] None; SBin 4%N DIV (EVar 2%N) (EVar 3%N)] [SBin 5%N DIV (EVar 2%N) (EVar 3%N)]
          [(6%N, EVar 4%N, EVar 5%N)]]
     (EVar 6%N).
-Definition wit_div_world : world := mkworld (fun _ _ _ => Some 0) (fun _ => 0) (fun _ => 0) (fun _ v => v).
+Definition wit_div_world : world := mkworld (fun _ _ _ => Some 0) (fun _ => 0) (fun _ => 0) (fun _ v => v) (fun _ _ => 0).
 Lemma cse_old_hoists_division_refuted :
   exists f sup f', wf_func f = true /\ no_break_l (f_body f) = true /\ cse_old sup f = Some f' /\
     sem Wrap wit_div_world f [1; 7; 0] 10 = Trap [(9%N, [])] /\ sem Wrap wit_div_world f' [1; 7; 0] 10 = Trap [] /\
